@@ -4,6 +4,8 @@ go 1.23.6
 
 require ariga.io/atlas v0.0.0
 
+require golang.org/x/mod v0.17.0 // indirect
+
 require (
 	github.com/agext/levenshtein v1.2.1 // indirect
 	github.com/apparentlymart/go-textseg/v13 v13.0.0 // indirect
